@@ -36,32 +36,16 @@ open Pog
 theorem class_name_is_identifier (s : Str) : isPyIdent (sanClass s) = true :=
   Pog.sanClass_isPyIdent s
 
-/-- The class name is a keyword exactly when the capitalised words spell `None`/`True`/`False`. -/
-theorem class_name_keyword_iff (s : Str) :
-    isKeyword (sanClass s) = true ↔
-      (sanClassCore s = "None".toList ∨ sanClassCore s = "True".toList ∨ sanClassCore s = "False".toList) :=
-  Pog.sanClass_keyword_iff s
+/-- `class_name_valid` at full strength (F28 repaired: the capitalised keywords `None`/`True`/`False` get the `_` suffix too):
+    for EVERY input the class name is a valid ASCII identifier and not a keyword. -/
+theorem class_name_valid (s : Str) : isPyIdent (sanClass s) = true ∧ isKeyword (sanClass s) = false :=
+  ⟨Pog.sanClass_isPyIdent s, Pog.sanClass_not_keyword s⟩
 
-/-- `class_name_valid` restricted to the inputs the code gets right. -/
-theorem class_name_valid_partial (s : Str)
-    (h : sanClassCore s ≠ "None".toList ∧ sanClassCore s ≠ "True".toList ∧ sanClassCore s ≠ "False".toList) :
-    isPyIdent (sanClass s) = true ∧ isKeyword (sanClass s) = false := by
-  refine ⟨Pog.sanClass_isPyIdent s, ?_⟩
-  cases hk : isKeyword (sanClass s) with
-  | false => rfl
-  | true =>
-    rcases (Pog.sanClass_keyword_iff s).mp hk with h1 | h1 | h1
-    · exact absurd h1 h.1
-    · exact absurd h1 h.2.1
-    · exact absurd h1 h.2.2
-
-/-- ✗ witness: the schema name `none` becomes the keyword `None`. -/
-theorem class_name_counterexample :
-    sanClass "none".toList = "None".toList ∧ isKeyword (sanClass "none".toList) = true := by
+/-- The inputs that used to come out as keywords. -/
+theorem class_name_former_keywords :
+    sanClass "none".toList = "None_".toList ∧ sanClass "true".toList = "True_".toList ∧ sanClass "FALSE".toList = "False_".toList ∧
+    sanClass "class".toList = "Class_".toList ∧ sanClass "UserGroup".toList = "UserGroup".toList := by
   decide
-
-example : sanClassCore "UserGroup".toList ≠ "None".toList ∧ sanClassCore "UserGroup".toList ≠ "True".toList
-    ∧ sanClassCore "UserGroup".toList ≠ "False".toList := by decide
 
 /-! ## method / field / parameter names (`sanitize_method_name`) -/
 
